@@ -53,7 +53,8 @@ func main() {
 		if name == famGetTooMany {
 			return
 		}
-		r.NewSub("metrics", "vstate", "the discard metrics exist once a map has been constructed")
+		ms := r.NewSub("metrics", "vstate", "the discard metrics exist once a map has been constructed")
+		ms.Evaluations, ms.States, ms.Transitions, ms.Nontrivial, ms.Outcomes = 1, 1, 1, 1, 1
 		r.Violate(ev.Violation{Signature: "metrics:discard-metric-not-instantiated", Sub: "metrics", Message: fmt.Sprintf("constructing a hashingKeyLocationMap did not instantiate %s for its storage type: a discard of that kind cannot be reported through the index's metrics", name), Case: map[string]string{"metric": name}})
 		r.Finish()
 	}
